@@ -100,6 +100,11 @@ prefill(void)
         f->bytes_of_frame = IN_BYTES;
         f->shape.dims.channels = 1; f->shape.dims.width = NPX; f->shape.dims.height = 1; f->shape.dims.planes = 1;
         f->shape.strides.channels = 1; f->shape.strides.width = 1; f->shape.strides.height = NPX; f->shape.strides.planes = NPX;
+#ifdef SHAPE_CHANGE_AT
+        /* the camera's shape changes in the middle of the run (same pixel count, transposed): frames
+         * from SHAPE_CHANGE_AT on are 1 x NPX instead of NPX x 1 */
+        if (n >= SHAPE_CHANGE_AT) { f->shape.dims.width = 1; f->shape.dims.height = NPX; f->shape.strides.height = 1; }
+#endif
         f->shape.type = (enum SampleType)TYPE;
         f->frame_id = (uint64_t)n;
         f->timestamps.hardware = 100 + (uint64_t)n;
@@ -131,6 +136,37 @@ writer_step(void)
 
 static struct VideoFrame seen_hdr[NMAX / K + 2];
 static float seen_px[NMAX / K + 2][NPX];
+#ifdef SHAPE_CHANGE_AT
+/* shape-change runs: what happens to the window that is open when the shape changes is not
+ * pinned down by the property; every frame that IS emitted must be the exact mean of K consecutive
+ * input frames of one shape, carry the id of the first of them and that shape, and ids must
+ * increase (no frame counted twice) */
+static int last_first = -1;
+static void
+check_emitted(int j)
+{
+    const struct VideoFrame* f = &seen_hdr[j];
+    int first = (int)f->frame_id;
+    if (f->bytes_of_frame != OUT_BYTES || f->shape.type != SampleType_f32 || f->shape.strides.planes != NPX) ++emit_errors;
+    if (first <= last_first || first < 0 || first >= N) { ++emit_errors; return; }
+    if (last_first >= 0 && first < last_first + K) ++emit_errors; /* windows overlap */
+    last_first = first;
+    int complete = first + K <= N;
+    int before = first < SHAPE_CHANGE_AT;
+    if (complete && before && first + K > SHAPE_CHANGE_AT) ++emit_errors; /* a window that mixes the two shapes */
+    if ((before ? (f->shape.dims.width != NPX || f->shape.dims.height != 1) : (f->shape.dims.width != 1 || f->shape.dims.height != NPX))) ++emit_errors;
+    if (complete) {
+        for (int i = 0; i < NPX; ++i) {
+            int32_t S = 0;
+            for (int w = 0; w < K; ++w)
+                for (int q = 0; q < NMAX; ++q)
+                    if (q == first + w) S += pix[q][i];
+            float want = (float)S * (1.0f / (float)K);
+            if (!(seen_px[j][i] == want)) ++emit_errors;
+        }
+    }
+}
+#else
 static void
 check_emitted(int j)
 {
@@ -150,6 +186,7 @@ check_emitted(int j)
     }
     /* a trailing incomplete window may be emitted un-normalised: value not constrained */
 }
+#endif
 
 /* sink abstraction: consumes whole frames; once told to stop, the first time it finds the queue
  * empty it stops the storage (the sink thread's final flush loop) */
@@ -167,7 +204,7 @@ sink_step(void)
             if (*pos <= (size_t)k * OUT_BYTES && (size_t)k * OUT_BYTES < out.head) {
                 const struct VideoFrame* f = (const struct VideoFrame*)(out.data + (size_t)k * OUT_BYTES);
                 seen_hdr[k].bytes_of_frame = f->bytes_of_frame; seen_hdr[k].frame_id = f->frame_id;
-                seen_hdr[k].shape.type = f->shape.type; seen_hdr[k].shape.dims.width = f->shape.dims.width; seen_hdr[k].shape.strides.planes = f->shape.strides.planes;
+                seen_hdr[k].shape.type = f->shape.type; seen_hdr[k].shape.dims.width = f->shape.dims.width; seen_hdr[k].shape.dims.height = f->shape.dims.height; seen_hdr[k].shape.strides.planes = f->shape.strides.planes;
                 for (int i = 0; i < NPX; ++i) seen_px[k][i] = ((const float*)f->data)[i];
                 ++emitted;
             }
@@ -354,7 +391,10 @@ main(void)
     int queued = storage_stopped && out.head > sink_pos_at_stop;
     VASSERT(emit_errors == 0, "C10: an emitted frame is not the f32 mean of its window (type, size, frame id or pixel value wrong)");
     int complete = N / K, trailing = (N % K) ? 1 : 0;
-#if SCN == 1
+#if SCN == 1 && defined(SHAPE_CHANGE_AT)
+    VASSERT(emitted <= complete + trailing, "C10: more frames emitted than windows (input frame counted twice)");
+    VASSERT(emitted >= (N - SHAPE_CHANGE_AT - 1) / K, "C10: a complete window of frames after the shape change was not emitted");
+#elif SCN == 1
     VASSERT(emitted >= complete, "C10: a complete window was not emitted (input frame skipped)");
     VASSERT(emitted <= complete + trailing, "C10: more frames emitted than windows (input frame counted twice)");
 #else
@@ -362,7 +402,11 @@ main(void)
     if (storage_stopped) VASSERT(emitted >= complete, "C10: storage stopped before every complete window reached it");
 #endif
     VASSERT(flt.is_running == 0 && flt.is_stopping == 0, "filter flags not reset");
+#ifndef SHAPE_CHANGE_AT
     COVER(emitted == complete + trailing);
+#else
+    COVER(emitted >= 1);
+#endif
 #if SCN == 2
     COVER(storage_stopped);
 #endif
